@@ -19,6 +19,10 @@ struct hx_harness {
   const char *const *clause_names; /* for clause_hits in the evidence, NULL-terminated, may be NULL */
   /* optional: called by the worker (not the execution process) once per shard before exploring */
   void (*worker_init)(int tier);
+  /* breadth-first search over operation histories with state deduplication (instead of DFS over choice sequences):
+   * number of operations and depth per tier; the harness takes its operations from vk_choose(K_OP, ...) while inside the prefix */
+  int bfs_nops;
+  int bfs_depth[2];
 };
 
 extern int hx_tier;
